@@ -288,10 +288,10 @@ Definition snapshot_material_msgs (pr : peer_state) : list msg :=
 
 Definition build_full_sync (pr : peer_state) : peer_state * list msg :=
   let es := ents_list pr in
-  (* check_entity_components works archetype by archetype: the spawns of an archetype, then its
-     component values. The model has no archetypes: all spawns, then all values. The two orders
-     differ only in messages about different entities, except for a SkinnedMesh whose joints live in
-     an archetype created later than its own (suspected defect S13; not generated). *)
+  (* check_entity_components (since the repair of S13, 3ef6cfd): the spawns of every archetype first,
+     then, archetype by archetype, the component values. The model has no archetypes: all spawns,
+     then all values; the two orders differ only in messages that commute on the receiver (values
+     of different entities, all of them known by then). *)
   let m1 := concat ((fun '(e, en) => firstn 1 (snapshot_entity_msgs pr e en)) <$> es) ++
             concat ((fun '(e, en) => skipn 1 (snapshot_entity_msgs pr e en)) <$> es) in
   let m2 := concat ((fun '(e, en) => snapshot_parent_msgs pr e en) <$> es) in
